@@ -15,9 +15,10 @@ Regions (located by anchor + brace matching, never by line number):
     remove_column: init of r, c; loop test; loop advance; inner `for` header; index updates;
                    min/max_eig update        -> lmqrRemoveInit / lmqrRemoveCond / lmqrRemoveAdvance /
                                                 lmqrInnerInit / lmqrInnerCond / lmqrInnerStep /
-                                                lmqrRemoveIdx / lmqrRemoveEig
+                                                lmqrRemoveIdx (+ `update_eig_bounds();` last)
     solve_col: pivot threshold test          -> lmqrSolveSkip
-    scale_R: eig scaling                     -> lmqrScaleEig
+    scale_R: loop + `update_eig_bounds();`   -> shape-checked
+    update_eig_bounds                        -> lmqrEigInit / lmqrEigStep
     reset                                    -> lmqrResetIdx (q_idx, r_idx_start, r_idx_end, reorth_count),
                                                 lmqrResetEig
   ringbuffer.hpp
@@ -331,9 +332,15 @@ def main(out_path):
         raise TranslationError('remove_column: Givens sweep body changed shape '
                                '(makeGivens / applyOnTheLeft loop / applyOnTheRight): ' + repr(shape)[:400])
     regions['remove_column.sweep_shape'] = {'hash': cp.ast_hash(shape)}
-    eig = [s for s in wb if s[0] == 'expr' and targets(s[1]) in ('min_eig', 'max_eig')]
-    scalar_fn('lmqrRemoveEig', eig, ['min_eig', 'max_eig', 'R_rc'], outputs=['min_eig', 'max_eig'],
-              doc=f'{QR} :: remove_column — min_eig / max_eig update (R_rc = the new diagonal element)')
+    # min_eig / max_eig: nothing inside the sweep; `update_eig_bounds();` is the LAST statement, after the index updates
+    eig_any = [n for s in ss for n in nested_assigns(s, ('min_eig', 'max_eig'))] + \
+              [s for s in ss if s[0] == 'expr' and targets(s[1]) in ('min_eig', 'max_eig')]
+    if eig_any:
+        raise TranslationError('remove_column: min_eig / max_eig written outside update_eig_bounds()')
+    call_upd = ('expr', ('call', ('id', 'update_eig_bounds'), [], None))
+    if repr(ss[-1]) != repr(call_upd) or sum(repr(x) == repr(call_upd) for x in ss) != 1:
+        raise TranslationError('remove_column: `update_eig_bounds();` is not its last statement')
+    regions['remove_column.update_eig_last'] = {'hash': cp.ast_hash(ss[-1])}
     upd = [s for s in ss if s[0] == 'expr' and targets(s[1]) in IDX]
     nat_fn('lmqrRemoveIdx', None, ['m'] + list(IDX), stmts=upd, outputs=list(IDX),
            doc=f'{QR} :: remove_column — every statement that writes q_idx / r_idx_start / r_idx_end, in order')
@@ -377,14 +384,41 @@ def main(out_path):
 
     # ------------------------------------------------------------------ scale_R / reset
     _, body = cp.find_region(cls, r'void\s+scale_R\s*\(\s*real_t\s+scal\s*\)')
-    st = cp.parse_statements(cp.find_statement(body, r'min_eig\s*\*=') + cp.find_statement(body, r'max_eig\s*\*='))
-    scalar_fn('lmqrScaleEig', st, ['min_eig', 'max_eig', 'scal'], outputs=['min_eig', 'max_eig'],
-              doc=f'{QR} :: scale_R — eig scaling')
     mm = re.search(r'for\s*\(\s*auto\s*\[\s*i\s*,\s*r_idx\s*\]\s*:\s*ring_iter\s*\(\s*\)\s*\)\s*'
                    r'R\.col\s*\(\s*r_idx\s*\)\s*\.topRows\s*\(\s*i\s*\+\s*1\s*\)\s*\*=\s*scal\s*;', body)
     if not mm:
         raise TranslationError('scale_R: `for (auto [i, r_idx] : ring_iter()) R.col(r_idx).topRows(i + 1) *= scal;` changed')
     regions['scale_R.loop'] = {'hash': cp.ast_hash(re.sub(r'\s+', '', mm.group(0)))}
+    rest = cp.parse_statements(body[mm.end():])
+    if repr(rest) != repr([('expr', ('call', ('id', 'update_eig_bounds'), [], None))]) or body[:mm.start()].strip():
+        raise TranslationError('scale_R: expected the scaling loop followed by `update_eig_bounds();` only')
+    regions['scale_R.update_eig_last'] = {'hash': cp.ast_hash(rest)}
+
+    # update_eig_bounds(): `min_eig = +inf; max_eig = -inf; for (auto [i, r_idx] : ring_iter()) { min/max with R(i, r_idx) }`
+    _, body = cp.find_region(cls, r'void\s+update_eig_bounds\s*\(\s*\)')
+    body2 = re.sub(r'inf\s*<\s*config_t\s*>', 'INF', body)
+    mm = re.search(r'for\s*\(\s*auto\s*\[\s*i\s*,\s*r_idx\s*\]\s*:\s*ring_iter\s*\(\s*\)\s*\)\s*\{', body2)
+    if not mm:
+        raise TranslationError('update_eig_bounds: `for (auto [i, r_idx] : ring_iter()) {` not found')
+    close = body2.index('}', mm.end())
+    if body2[close + 1:].strip():
+        raise TranslationError('update_eig_bounds: statements after the loop')
+    init_st = cp.parse_statements(body2[:mm.start()])
+    if [targets(x[1]) if x[0] == 'expr' else None for x in init_st] != ['min_eig', 'max_eig']:
+        raise TranslationError('update_eig_bounds: expected `min_eig = …; max_eig = …;` before the loop')
+    env = {'INF': ('inf', 'S')}
+    em = Emitter(lambda d: env.get(d))
+    defs.append(em.function('lmqrEigInit', [('INF', 'inf', 'S')], init_st, None, outputs=['min_eig', 'max_eig'],
+                            out_types={'min_eig': 'S', 'max_eig': 'S'},
+                            doc=f'{QR} :: update_eig_bounds — start values (min_eig, max_eig); `inf` = `inf<config_t>`'))
+    regions['lmqrEigInit'] = {'hash': cp.ast_hash(init_st)}
+    loop_txt = re.sub(r'R\s*\(\s*i\s*,\s*r_idx\s*\)', 'R_d', body2[mm.end():close])
+    loop_st = cp.parse_statements(loop_txt)
+    if [targets(x[1]) if x[0] == 'expr' else None for x in loop_st] != ['min_eig', 'max_eig'] or \
+            re.search(r'\b(i|r_idx|R)\b', loop_txt):
+        raise TranslationError('update_eig_bounds: loop body is not two updates with the diagonal entry R(i, r_idx)')
+    scalar_fn('lmqrEigStep', loop_st, ['min_eig', 'max_eig', 'R_d'], outputs=['min_eig', 'max_eig'],
+              doc=f'{QR} :: update_eig_bounds — one trip of the loop over ring_iter() (R_d = R(i, r_idx), the diagonal entry)')
 
     _, body = cp.find_region(cls, r'void\s+reset\s*\(\s*\)')
     body2 = re.sub(r'inf\s*<\s*config_t\s*>', 'INF', body)
